@@ -152,10 +152,16 @@ def parse_assumptions(log):
         if lines[i].startswith('Axioms:'):
             blocks += 1
             i += 1
-            while i < len(lines) and (lines[i].startswith(' ') or re.match(r'^[A-Za-z_][\w.\']*\s*:', lines[i])):
+            while i < len(lines):
                 m = re.match(r'^([A-Za-z_][\w.\']*)\s*:', lines[i])
+                # a long axiom is printed with its type wrapped onto the next (indented) line
+                m2 = re.match(r'^([A-Za-z_][\w.\']*)\s*$', lines[i])
                 if m:
                     axioms.append(m.group(1))
+                elif m2 and i + 1 < len(lines) and re.match(r'^\s+:', lines[i + 1]):
+                    axioms.append(m2.group(1))
+                elif not lines[i].startswith(' '):
+                    break
                 i += 1
             continue
         i += 1
